@@ -39,6 +39,8 @@ structure E where
   kind : Kind
   mtime : Int
   content : Nat
+  /-- the size the node RECORDS when it is not the length of the content (stdin-style nodes: 0; grown / shrunk files) -/
+  rsize : Option Nat := none
 
 def parseState (s : String) : Option (List E) :=
   if s = "-" then some [] else
@@ -50,6 +52,12 @@ def parseState (s : String) : Option (List E) :=
       let mtime ← mtime.toInt?
       let content ← content.toNat?
       if path.isEmpty then none else pure { path, kind, mtime, content }
+    | [path, "f", mtime, content, rsize] => do
+      let path ← Driver.C11.parsePath path
+      let mtime ← mtime.toInt?
+      let content ← content.toNat?
+      let rsize ← rsize.toNat?
+      if path.isEmpty then none else pure { path, kind := .file, mtime, content, rsize := some rsize }
     | _ => none
 
 def srcName : Name := [115, 114, 99]
@@ -64,7 +72,8 @@ def entriesOf (table : List Content) (coll : List Name → List Nat × Nat) (es 
         | none => none
       else some (([] : List Nat), 0))
     let name ← e.path.getLast?
-    let node : Node := { name, kind := e.kind, md := { size, mtime := some e.mtime, ctime := some e.mtime, inode := 0 } }
+    -- the chunk ids come from the CONTENT (`Archive.fileStep`: `chunk x`); the node records whatever size the source reported
+    let node : Node := { name, kind := e.kind, md := { size := e.rsize.getD size, mtime := some e.mtime, ctime := some e.mtime, inode := 0 } }
     let full := srcName :: e.path
     pure { path := if e.kind = .dir then full else full.dropLast, node, x := ids }
 
@@ -161,16 +170,29 @@ def parseAdds (s : String) : Option (List Rustic.Archive.Ev) :=
     | ["t", l, _] => l.toNat?.map (Rustic.Archive.Ev.enter .tree)
     | _ => none
 
-def handle : List String → String
-  | ["hist", parent, avg, mn, mx, table, states] =>
+/-- `i.k,…` (i ≥ 1): a failing read of one index file while the index is reloaded before backup `i`.  The model's answer does not
+depend on it: the reload fails (`Props.C07.reload_with_unreadable_index_file_fails`), is repeated, and the backup sees the complete
+index (`reloaded_index_has_every_listed_blob`). -/
+def faultsOk (s : String) : Bool :=
+  s = "-" || (s.splitOn ",").all fun tok =>
+    match tok.splitOn "." with
+    | [i, k] => (match i.toNat?, k.toNat? with | some i, some _ => i ≥ 1 | _, _ => false)
+    | _ => false
+
+def handleHist (parent avg mn mx table states faults : String) : String :=
     match avg.toNat?, mn.toNat?, mx.toNat? with
     | some avg, some mn, some mx =>
       if parent ≠ "0" && parent ≠ "1" then "bad-op" else
+      if !faultsOk faults then "bad-op" else
       let t := Tables.mk' Rustic.Gen.WINDOW_BITS poly
       match parseTable t avg mn mx table, (states.splitOn "|").mapM parseState with
       | some table, some states => hist parent table states
       | _, _ => "bad-op"
     | _, _, _ => "bad-op"
+
+def handle : List String → String
+  | ["hist", parent, avg, mn, mx, table, states] => handleHist parent avg mn mx table states "-"
+  | ["hist", parent, avg, mn, mx, table, states, faults] => handleHist parent avg mn mx table states faults
   | ["many", dsize, n, len, dups] =>
     -- every distinct blob is stored exactly once, whatever the schedule and wherever the indexer flushes its file
     -- (Props.C07 `uploaded_exactly_added`, `settled_blob_is_never_stored_again`): the index lists `n` keys
